@@ -354,7 +354,7 @@ func TestC07(t *testing.T) {
 		Exec:           exec,
 		Bubble:         true,
 		Describe:       describe,
-		Tier:           "A",
+		Tier:           "B",
 		RequiredProbes: []string{"snapshot-verified", "snapshot-persisted-after-later-commands", "body-accepted-by-endpoint", "body-rejected-by-endpoint", "cluster-converged", "change-acknowledged-with-a-node-unreachable", "meta-node-restarted", "fault-aimed-at-leader", "command-outlasts-fault"},
 		Real:           []string{"meta storeFSM.Apply / Snapshot / storeFSMSnapshot.Persist / Restore", "meta.Data.Clone, marshal/unmarshal", "handler validateCommand", "cluster mode: meta.Service (HTTP handler: execute with leader redirect, join, status, snapshot long poll), meta store, hashicorp/raft with bolt log/stable store and file snapshot store, the raft network layer behind tcp.Mux, meta.Client (retryUntilExec, polling) - three nodes on the simulated network and clock"},
 		Stub:           []string{"snapshot/accept modes drive the state machine directly (no raft); legacy CreateNode/RemovePeer bodies are validated but not applied (they consult live raft state)", "cluster mode: no data nodes; a stopped node is closed cleanly (its files are what it left), not cut at a crash point"},
